@@ -376,3 +376,43 @@ fn stdlib_dt_split_in_range() {
         std::mem::forget(d); std::mem::forget(t); std::mem::forget(v);
     }
 }
+
+macro_rules! bits_to_int {
+    ($sv:ident, $st:ty, $tid:ident, $tv:ident, $tt:ty) => {{
+        let w: $st = kani::any();
+        let v = Value::$sv(w);
+        let r = convert_x(&v, TypeId::$tid, false);
+        // binary transfer: the low bits of the bit string reinterpreted in the destination type
+        #[cfg(feature = "c02")]
+        assert!(matches!(&r, Ok(Value::$tv(y)) if *y == (w as $tt)), "C02: bit-string to integer conversion is not a binary transfer of the low bits");
+        kani::cover!(matches!(&r, Ok(_)));
+        std::mem::forget(r); std::mem::forget(v);
+    }};
+}
+macro_rules! int_to_bits {
+    ($sv:ident, $st:ty, $tid:ident, $tv:ident, $tt:ty) => {{
+        let x: $st = kani::any();
+        let v = Value::$sv(x);
+        let r = convert_x(&v, TypeId::$tid, false);
+        #[cfg(feature = "c02")]
+        assert!(matches!(&r, Ok(Value::$tv(y)) if *y == (x as $tt)), "C02: integer to bit-string conversion is not a binary transfer of the low bits");
+        kani::cover!(matches!(&r, Ok(_)));
+        std::mem::forget(r); std::mem::forget(v);
+    }};
+}
+
+// @verif prop=C01,C02 kernel=K5 tiers=quick,thorough timeout=1800 unwind=1 mem=12
+// @verif what=bit-string <-> integer conversions (WORD_TO_INT, INT_TO_WORD, ...): binary transfer of the low bits (two's complement reinterpretation, masking when narrowing), never a panic or a fault
+// @verif fns=stdlib::conversions::bitstring::{convert_to_bit_string,bit_string_to_int,integer_to_bit_string,unsigned_to_bit_string,sign_extend,mask_for}
+// @verif bound=every source value for 10 (source, destination) pairs incl. same width, widening and narrowing
+#[kani::proof]
+fn stdlib_convert_bits_ints() {
+    let k: u8 = kani::any();
+    match k % 10 {
+        0 => bits_to_int!(Word, u16, INT, Int, i16), 1 => bits_to_int!(Byte, u8, SINT, SInt, i8),
+        2 => bits_to_int!(DWord, u32, DINT, DInt, i32), 3 => bits_to_int!(LWord, u64, LINT, LInt, i64),
+        4 => bits_to_int!(LWord, u64, ULINT, ULInt, u64), 5 => bits_to_int!(DWord, u32, USINT, USInt, u8),
+        6 => int_to_bits!(Int, i16, WORD, Word, u16), 7 => int_to_bits!(SInt, i8, BYTE, Byte, u8),
+        8 => int_to_bits!(LInt, i64, DWORD, DWord, u32), _ => int_to_bits!(UDInt, u32, LWORD, LWord, u64),
+    }
+}
